@@ -101,9 +101,12 @@ def scenario_of(unit):
     return scn
 
 
-def collector_take(flavour, kind, limit, take, sent, same_read, part):
+def collector_take(flavour, kind, limit, take, sent, same_read, part, ending=None, rules='C09'):
     """The library's own 'take N' subscriber (CollectorSubscriber(limit_count=N)) against a scripted peer that has `sent`
-    elements in flight: exactly one CANCEL, nothing beyond N in the result, and a wait_for() timeout on request_response."""
+    elements in flight: exactly one CANCEL, nothing beyond N in the result.  `ending`: the peer ends the stream itself - 'flag'
+    (the last element carries COMPLETE), 'frame' (a bare COMPLETE follows), 'error' (an ERROR follows); a stream that ended
+    with its N-th element must not be cancelled any more (rules='C08': only the wire-legality monitor judges)."""
+    from mc import monitors
     from mc import refwire as R
     from mc.app import P
     from mc.solo import Solo
@@ -112,30 +115,75 @@ def collector_take(flavour, kind, limit, take, sent, same_read, part):
     s = Solo('client', flavour)
     try:
         col = CollectorSubscriber(limit_rate=limit, limit_count=take)
+        real_next, real_complete, real_error = col.on_next, col.on_complete, col.on_error
+        # the moment the library hands the stream's last signal to the collector: its terminal reception has been processed
+        col.on_next = lambda v, is_complete=False: ((s.w.log.append(('collector-terminal', s.ep)) if is_complete else None), real_next(v, is_complete))[1]
+        col.on_complete = lambda: (s.w.log.append(('collector-terminal', s.ep)), real_complete())[1]
+        col.on_error = lambda e: (s.w.log.append(('collector-terminal', s.ep)), real_error(e))[1]
+        real_send = s.sock.send_frame
+        # when a frame is issued (put on the send queue), as opposed to when the sender task writes it
+        s.sock.send_frame = lambda frame: (s.w.log.append(('issued', s.ep, type(frame).__name__, frame.stream_id, getattr(frame, 'flags_complete', False))), real_send(frame))[1]
         if kind == 'stream':
             s.sock.request_stream(P(b'q')).initial_request_n(limit).subscribe(col)
         else:
             s.sock.request_channel(P(b'q')).initial_request_n(limit).subscribe(col)
         s.settle()
         sid = 1
+        frames = [R.enc_payload(sid, b'e%d' % i, complete=(ending == 'flag' and i == sent - 1)) for i in range(sent)]
+        if ending == 'frame' or (ending == 'flag' and sent == 0):
+            frames.append(R.enc_payload(sid, b'', complete=True, next=False))
+        elif ending == 'error':
+            frames.append(R.enc_error(sid, 0x201, b'source failed'))
         if same_read:
-            for i in range(sent):
-                inject(s.w, s.inn, R.enc_payload(sid, b'e%d' % i))
+            for f in frames:
+                inject(s.w, s.inn, f)
             s.deliver('Q')
         else:
-            for i in range(sent):
-                s.peer(R.enc_payload(sid, b'e%d' % i))
+            for f in frames:
+                s.peer(f)
+        s.settle()
         cancels = [f for f in s.sent_on(sid) if f.type == R.CANCEL]
         got = [bytes(p.data or b'') for p in col.values]
         want_n = min(take, sent)
-        ctx = 'collector/%s | %s' % (kind, 'one-read' if same_read else 'one-per-read')
-        wit = {'kind': 'collector', 'flavour': flavour, 'req': kind, 'limit': limit, 'take': take, 'sent': sent, 'same_read': same_read}
+        ctx = 'collector/%s | %s%s' % (kind, 'one-read' if same_read else 'one-per-read', ' | ends-' + ending if ending else '')
+        wit = {'kind': 'collector', 'flavour': flavour, 'req': kind, 'limit': limit, 'take': take, 'sent': sent, 'same_read': same_read,
+               'ending': ending, 'rules': rules}
         part.evaluations += 1
         part.traces += 1
-        part.transitions += sent + 1
-        part.state(('collector', kind, limit, take, sent, same_read, len(cancels), len(got)))
-        part.nontriv(('collector', kind, limit, take, sent, same_read))
-        if sent >= take:
+        part.transitions += len(frames) + 1
+        part.state(('collector', kind, limit, take, sent, same_read, ending, len(cancels), len(got)))
+        part.nontriv(('collector', kind, limit, take, sent, same_read, ending))
+        if rules == 'C10':
+            # the application's interaction is over once the collector is done (N taken, or the peer ended the stream):
+            # no stream entry, no partial payload, and the id is allocated again after a wrap of the id counter
+            if col.is_done.is_set():
+                streams, partial = monitors.open_state(s.sock)
+                if streams or partial:
+                    part.violate('C10.released', 'C10.released | collector/%s | %s | streams=%d partial=%d' % (kind, 'taken' if sent >= take and not (ending == 'flag' and sent == take) else 'ended-by-peer', len(streams), len(partial)),
+                                 'collector done (take %d of %d, limit_rate %d, %s): stream table %s, reassembly cache %s' % (take, sent, limit, ctx, streams, partial), wit)
+            return
+        if rules == 'C08':
+            for rule, sig, detail in monitors.wire_legality(s.log, s.ep, 'client'):
+                part.violate(rule, sig + ' | ' + ctx, detail + ' (take %d of %d, limit_rate %d)' % (take, sent, limit), wit)
+            # sharper than the monitor's quiescence dating: a frame about the inbound direction (CANCEL / REQUEST_N) issued
+            # after the library itself handed the terminal signal of that direction to the collector
+            log = list(s.w.log)
+            marks = [i for i, ev in enumerate(log) if ev[0] == 'collector-terminal']
+            if marks:
+                own_done = kind == 'stream' or any(ev[0] == 'issued' and ev[3] == sid and ev[4] for ev in log[:marks[0]])
+                for ev in log[marks[0]:]:
+                    if ev[0] == 'issued' and ev[3] == sid and ev[2] in ('CancelFrame', 'RequestNFrame') and (own_done or ending == 'error'):
+                        part.violate('C08.nothing-after-termination', 'C08.nothing-after-termination | requester/%s | %s | after-terminal-signal | %s' % (kind, ev[2], ctx),
+                                     '%s issued after the stream\'s terminal signal had been delivered (take %d of %d, limit_rate %d)' % (ev[2], take, sent, limit), wit)
+            return
+        if ending == 'flag' and sent == take:
+            # the N-th element ended the stream itself: there is nothing left to cancel
+            if cancels:
+                part.violate('C09.exactly-one-cancel', 'C09.exactly-one-cancel | %s | after-completion' % ctx,
+                             'the %d-th element carried COMPLETE, yet %d CANCEL frames followed' % (take, len(cancels)), wit)
+            if not col.is_done.is_set():
+                part.violate('C09.nothing-after-cancel', 'C09.nothing-after-cancel | %s | collector-not-done' % ctx, 'the collector did not finish after %d elements' % take, wit)
+        elif sent >= take:
             if len(cancels) != 1:
                 part.violate('C09.exactly-one-cancel', 'C09.exactly-one-cancel | %s | cancels=%d' % (ctx, len(cancels)),
                              'take %d of %d elements in flight: %d CANCEL frames' % (take, sent, len(cancels)), wit)
@@ -160,7 +208,8 @@ def run_unit(unit, part):
                             if sent > limit and limit < 0x7FFFFFFF:
                                 continue  # a legal peer does not send beyond the credit (the collector re-requests per window; keep it simple)
                             for same_read in (False, True):
-                                collector_take(flavour, kind, limit, take, sent, same_read, part)
+                                for ending in (None, 'flag', 'frame', 'error'):
+                                    collector_take(flavour, kind, limit, take, sent, same_read, part, ending, unit.get('rules', 'C09'))
         part.sample({'kind': 'collector-take'}, limit=1)
         return
     dev_explore(scenario_of(unit), unit['bound'], part, shard=tuple(unit['shard']), det_every=200)
@@ -176,7 +225,7 @@ def replay(rec):
     if w.get('kind') == 'collector':
         from mc.runner import Partial
         p = Partial()
-        collector_take(w['flavour'], w['req'], w['limit'], w['take'], w['sent'], w['same_read'], p)
+        collector_take(w['flavour'], w['req'], w['limit'], w['take'], w['sent'], w['same_read'], p, w.get('ending'), w.get('rules', 'C09'))
         for v in p.violations.values():
             print(v.rule, '|', v.detail)
         return bool(p.violations)
